@@ -82,7 +82,7 @@ package fastcgi
 //@ use @verif/specs/stdlib.spec:stdlib
 //@ use @verif/specs/stdlib.spec:casket_api
 
-//@ unit fcgi_client_api props=C19,C13 nilchecks=on filter=`FCGIClient\)\.(Request|Get|Head|Options|Post)$|fastcgi\.writeHeader$`
+//@ unit fcgi_client_api frames=on props=C19,C13 nilchecks=on filter=`FCGIClient\)\.(Request|Get|Head|Options|Post)$|fastcgi\.writeHeader$`
 //@ // what the handler may rely on when a request to the responder "succeeded": a response object whose status net/http accepts
 //@ use @verif/specs/stdlib.spec:stdlib
 //@ use @verif/specs/stdlib.spec:nethttp_sinks
@@ -126,7 +126,7 @@ package fastcgi
 //@ func writeHeader
 //@   requires w != nil && r != nil && 100 <= r.StatusCode && r.StatusCode <= 999
 
-//@ unit path_split props=C13,C19 nilchecks=on filter=`fastcgi\.Rule\)\.(splitPos|canSplit)$`
+//@ unit path_split frames=on props=C13,C19 nilchecks=on filter=`fastcgi\.Rule\)\.(splitPos|canSplit)$`
 //@ // the split position is an index into the ORIGINAL path at which a whole split string fits (also with case-insensitive
 //@ // paths, where lower-casing changes byte offsets): what makes the two slice expressions of buildEnv safe and correct
 //@ extern strings.Index
